@@ -390,6 +390,50 @@ var c08Layouts = []string{"contig", "lazyT", "sliced", "stepsliced", "materializ
 
 func TestC08(t *testing.T) {
 	sumDTs := append(append([]DT{}, ordNumDTs...), dtC64, dtC128)
+	// long axes: whatever the kernels do in blocks, or count in narrow integers, shows only beyond small sizes
+	for _, op := range []string{"Sum", "Max", "Min", "Argmax", "Argmin"} {
+		for _, d := range ordNumDTs {
+			op, d := op, d
+			cell(t, "C08", "C08.reduce", "long/"+op+"/"+d.Name, nCases(3, 40), func(rt *rapid.T) Case {
+				n := rapid.SampledFrom([]int{255, 256, 257, 290, 511, 513, 1023, 1024, 1025, 1500, 2049, 4100}).Draw(rt, "n")
+				shape := rapid.SampledFrom([][]int{{n}, {2, n}, {n, 2}, {3, n, 1}, {1, n}}).Draw(rt, "shape")
+				c := &C08Case{Op: op, DT: d.Name, Via: rapid.SampledFrom([]string{"pkg", "method"}).Draw(rt, "via")}
+				c.A = genOpnd(rt, shape, rapid.SampledFrom([]string{"contig", "contig", "lazyT", "materialized"}).Draw(rt, "lk"), -3, 5, 0, "a")
+				// the extreme (for the arg-reductions: its FIRST occurrence) lies deep inside the long axis
+				pos := rapid.IntRange(n/2, n-1).Draw(rt, "pos")
+				for i := range c.A.Codes {
+					c.A.Codes[i] = 1 + int64(i%3)
+				}
+				ext := int64(9)
+				if op == "Min" || op == "Argmin" {
+					ext = 0
+				}
+				stride := prod(shape) / n
+				if len(shape) > 1 && shape[0] == n { // (n,2): the long axis is axis 0
+					c.A.Codes[pos*stride] = ext
+				} else if len(shape) == 3 {
+					c.A.Codes[pos] = ext
+				} else {
+					c.A.Codes[prod(shape)-n+pos] = ext
+				}
+				switch op {
+				case "Sum", "Max", "Min":
+					if rapid.Bool().Draw(rt, "all") {
+						c.Axes = nil
+					} else {
+						c.Axes = []int{rapid.IntRange(0, len(shape)-1).Draw(rt, "axis")}
+					}
+				default:
+					if rapid.Bool().Draw(rt, "all") {
+						c.Axes = []int{-1}
+					} else {
+						c.Axes = []int{rapid.IntRange(0, len(shape)-1).Draw(rt, "axis")}
+					}
+				}
+				return c
+			})
+		}
+	}
 	// the layout does not affect the result, bit for bit, over order- and precision-sensitive values
 	for _, op := range []string{"Sum", "Max", "Min"} {
 		for _, d := range []DT{dtF32, dtF64} {
